@@ -91,6 +91,17 @@ def get (m : Tab) (t : Str) : List Str := (assoc m t).getD []
 
 /-! ## `sortn`, `sort` -/
 
+/-- Perl's `sort` is a stable merge sort.  For a total preorder every stable sort returns the same
+list, so the model uses the simplest one (insertion sort, structural recursion: it reduces in the
+kernel and is linear on sorted input). -/
+def insertBy {α : Type} (le : α → α → Bool) (x : α) : List α → List α
+  | [] => [x]
+  | y :: ys => if le x y then x :: y :: ys else y :: insertBy le x ys
+
+def stableSort {α : Type} (le : α → α → Bool) : List α → List α
+  | [] => []
+  | x :: l => insertBy le x (stableSort le l)
+
 def valOf (s : Str) : Nat := s.foldl (fun a c => a * 10 + (c.toNat - 48)) 0
 
 /-- `/(\d*)$/` -/
@@ -99,8 +110,8 @@ def trailingDigits (s : Str) : Str := (s.reverse.takeWhile isDig).reverse
 /-- `($$a[1]||0)`: the trailing number, 0 when there is none -/
 def sortKey (s : Str) : Nat := valOf (trailingDigits s)
 
-/-- `sortn`: Perl's sort is a stable merge sort; so is `List.mergeSort` -/
-def sortn (l : List Str) : List Str := l.mergeSort fun a b => decide (sortKey a ≤ sortKey b)
+/-- `sortn` -/
+def sortn (l : List Str) : List Str := stableSort (fun a b => decide (sortKey a ≤ sortKey b)) l
 
 /-- Perl `le` on byte strings -/
 def strLe : Str → Str → Bool
@@ -110,7 +121,7 @@ def strLe : Str → Str → Bool
     if a.toNat < b.toNat then true else if b.toNat < a.toNat then false else strLe as bs
 
 /-- `sort` (default string comparison) -/
-def strSort (l : List Str) : List Str := l.mergeSort strLe
+def strSort (l : List Str) : List Str := stableSort strLe l
 
 /-! ## `do_output_normal`, `do_output_per_file` : one block (one file) per tag -/
 
@@ -205,7 +216,7 @@ structure Elem where
 
 /-- `sort keys %rng` -/
 def sortByKey (l : List (Str × List Run)) : List (Str × List Run) :=
-  l.mergeSort fun a b => strLe a.1 b.1
+  stableSort (fun a b => strLe a.1 b.1) l
 
 /-- `compress_inner` (structured; `Elem.render` gives the text) -/
 def compressInner (stems : List Str) (suf : Str) : List Elem :=
